@@ -303,8 +303,12 @@ def stage_params(ctx, exe, runner, quick):
         nvs2 = nvar * (nvar + 1) // 2
         varchol = [dy(Fraction(rng.randint(-16, 16), 4)) for _ in range(nvs2)]
         angles = [dy(Fraction(rng.randint(-180, 180), 2)) for _ in range(ndim)]
-        icases.append([3, ndim, nvar, [[dy(Fraction(float(x))) for x in d] for d in dirs], opts, types, items, dy(hmax), varchol, angles])
-        ctx.dist('params_ndim%d_nvar%d_ndir%d' % (ndim, nvar, len(dirs)))
+        vmap = (i % 5 == 4)
+        if vmap:    # st_vmap_auto_count: a 2-D map, one variable (vmap_auto_fit asks both nvar and nvar(nvar+1)/2 maps), no direction
+            ndim = 2; nvar = rng.choice([1, 1, 1, 2]); varchol = varchol[:1] if nvar == 1 else [dy(Fraction(rng.randint(-16, 16), 4)) for _ in range(3)]
+            angles = [dy(0), dy(0)]; types = [t for t in types]; items = gen_items(rng, ncov, nvar)
+        icases.append([3, ndim, nvar, [[dy(Fraction(float(x))) for x in d] for d in dirs], opts, types, items, dy(hmax), varchol, angles, vmap])
+        ctx.dist('params_%sndim%d_nvar%d_ndir%d' % ('vmap_' if vmap else '', ndim, nvar, len(dirs)))
         for it in items: ctx.dist('item_%s_%s' % (ELEM[it[2]], CASE[it[5]]))
     def mk_model(c, ii):
         ndim, nvar, dirs, opts, types, items = c[1], c[2], c[3], c[4], c[5], c[6]
@@ -319,7 +323,7 @@ def stage_params(ctx, exe, runner, quick):
                 else:
                     r = Fraction(math.isqrt(v.numerator)) / Fraction(math.isqrt(v.denominator)); roots.append(dy(r))
             else: roots.append([0, 0])
-        return [3, ndim, nvar, len(dirs), zflat, opts, chars, items, roots, sillneg, [c[7], dvar, c[9], nrange, ncova]]
+        return [3, ndim, nvar, len(dirs), zflat, opts, chars, items, roots, sillneg, [c[7], dvar, c[9], nrange, ncova], c[10]]
     res = both(ctx, exe, runner, 'params', icases, mk_model)
     for c, ii, mc, mi in res:
         site = 'st_model_auto_count/st_parid_alloc/st_model_auto_pardef/st_model_auto_constraints_apply/st_check_param'
@@ -531,6 +535,7 @@ def stage_goulard(ctx, exe, runner, quick):
                 v = sum(true[ic][a][b] * undy(ge[ic][ij][ip]) for ic in range(ncova)) + Fraction(rng.randint(-24, 24), 16)
                 row.append(dy(Fraction(round(v * 64), 64)))
                 wrow.append([] if rng.random() < .1 and ip > 1 else dy(Fraction(rng.randint(1, 40), 8)))
+            if a != b and rng.random() < .15: wrow = [[]] * npadir      # a cross-variogram without any weighted lag: zero cross-sill
             gg.append(row); wt.append(wrow)
         sill0 = [[[dy(1 if a == b else 0) for b in range(nvar)] for a in range(nvar)] for ic in range(ncova)]
         maxiter = rng.choice([0, 1, 2, 5, 30, 100]); tolred = dy(Fraction(1, 2 ** rng.choice([10, 20, 20, 30])))
@@ -556,11 +561,6 @@ def stage_goulard(ctx, exe, runner, quick):
         S = [unmat(m) for m in sills]
         spec_ok = status != 0 or all(all(v is not None for r in M for v in r) and sym_defect(M) == 0 and is_psd_exact(M) for M in S)
         if mi is None: continue
-        if mi[0] == 3:
-            ctx.cov['tie_excluded'] += 1
-            if not spec_ok:
-                ctx.found_input = True; ctx.violation(fn + ':pair-without-weighted-lag:sill-not-psd', 'a pair of variables without weighted lag: sills %s' % sx_str(sills)[:200], {'case': sx_str(c), 'impl': sx_str(ii)[:3000]})
-            continue
         if mi[0] == 0:
             # the model asked for more eigen-pairs than impl produced (or computeEigen failed): iteration counts differ
             agree = (status != 0); tie = True
@@ -716,19 +716,22 @@ def fit_combo(c):
 
 def inferred_params(c):
     """which anisotropy parameters the library infers for this configuration (st_alter_model_optvar / st_alter_vmap_optvar,
-    re-stated here only to NAME the violation keys): returns (anisotropy ranges inferred, rotation inferred)"""
+    re-stated here only to NAME the violation keys): returns (set of range ranks >= 1 inferred, rotation inferred)"""
     path, ndim, opts, dirs = c[1], c[2], c[8], c[5]
-    aniso, rot, iso2d = bool(opts[2]), bool(opts[3]), bool(opts[7])
-    if path == 1: return True, True           # the variogram map path forces both
+    aniso, rot, no3d, iso2d = bool(opts[2]), bool(opts[3]), bool(opts[6]), bool(opts[7])
+    if path == 1: return ({1} if aniso else set()), (aniso and rot)      # st_alter_vmap_optvar obeys the user (2-D maps)
     ndir = len(dirs)
-    n2 = ndir if ndim == 2 else sum(1 for d in dirs if len(d[0]) > 2 and undy(d[0][2]) == 0) if ndim == 3 else 0
-    if ndim == 3 and n2 <= 0: iso2d = True
+    zflat = [len(d[0]) < 3 or undy(d[0][2]) == 0 for d in dirs]
+    n2 = ndir if ndim == 2 else sum(1 for z in zflat if z) if ndim == 3 else 0
+    n3 = sum(1 for z in zflat if not z) if ndim == 3 else 0
+    if ndim == 3: no3d = n3 <= 0; iso2d = n2 <= 0
     if ndir <= ndim: rot = False
     if ndir <= 1 or ndim <= 1: aniso = False; rot = False
     if n2 <= 1: iso2d = True
     if iso2d: rot = False
-    if not aniso: rot = False
-    return aniso, rot
+    if not aniso: return set(), False
+    ranks = {1} if ndim == 2 else ({1} if not iso2d else set()) | ({2} if not no3d else set()) if ndim == 3 else set(range(1, ndim))
+    return ranks, rot
 
 def total_sill_defect(S, nvar):
     """'' or the reason why kriging with this model is singular whatever the data: zero / singular total sill matrix"""
@@ -763,6 +766,8 @@ def check_fit_result(ctx, c, ii):
     ctx.fit_ms.append((ms, fit_combo(c), c[9][0]))
     exc_s = ''.join(chr(x) for x in exc)
     if status == -98:
+        if 'Cannot create such covariance function' in exc_s:      # a basic structure that does not exist in this space: a reported user error
+            ctx.dist('fit_failure_reported'); return []
         what = 'length-error' if '_M_default_append' in exc_s or 'length' in exc_s else 'null-ellipsoid-radius' if 'Ellipsoid radius' in exc_s else \
                'bad-alloc' if 'bad_alloc' in exc_s or 'bad_array' in exc_s else 'other'
         return [(fatal('exception-' + what), 'the fit threw an exception instead of reporting failure: %s' % exc_s)]
@@ -813,7 +818,7 @@ def check_fit_result(ctx, c, ii):
             bad = ('lo' in sides and g < v - t) or ('up' in sides and g > v + t)
         if bad:
             an_inf, rot_inf = inferred_params(c)
-            not_inferred = (elem == E_RANGE and iv1 > 0 and not an_inf) or (elem == E_ANGLE and not rot_inf)
+            not_inferred = (elem == E_RANGE and iv1 > 0 and iv1 not in an_inf) or (elem == E_ANGLE and not rot_inf)
             key = '%s:constraint:after-reduction:not-satisfied' % PATHS[path] if len(S) < len(types) else \
                   '%s:constraint-on-parameter-not-inferred:not-satisfied' % PATHS[path] if not_inferred else \
                   ('%s:constraint-sill:%s:not-satisfied' % (PATHS[path], 'goulard' if opts[1] else 'no-goulard') if elem == E_SILL else '%s:constraint-%s-%s:not-satisfied' % (PATHS[path], ELEM[elem], CASE[case]))
@@ -841,7 +846,7 @@ def check_fit_result(ctx, c, ii):
         elif krig != 0: out.append(('%s:kriging-failed' % combo, 'kriging with the reloaded model returns %d' % krig))
         elif nfinite < 8 * nvar:
             why = total_sill_defect(S, nvar)
-            out.append(('%s%s:kriging-undefined-results' % (combo, why), 'kriging with the reloaded model gives only %d defined values out of %d%s' % (nfinite, 8 * nvar,
+            out.append(('%s%s:kriging-undefined-results' % ((PATHS[path] if why else combo), why), 'kriging with the reloaded model gives only %d defined values out of %d%s' % (nfinite, 8 * nvar,
                         ' (the sum of the sill matrices is %s)' % why[1:].replace('-', ' ') if why else '')))
     return out
 
@@ -881,6 +886,12 @@ def check_fit_trace(ctx, c, ii, mcases, mmeta):
             eps = max(1e-3, abs(1e-3 * float(undy(scale[k]))))
             steps.append([scale[k], param[k], lower[k], upper[k], hgn[k], dy(Fraction(eps))])
         mcases.append([4, delta, steps]); mmeta.append(('k45', how, (b0, b1, hgn, paux, param, lower, upper, scale, delta), None, c))
+    # angles of the returned structures that are not parameters of the fit: reference angle, or the user's equality constraint
+    if status == 0 and c[1] == 0 and k3 and not c[8][4] and len(structs) == len(c[7]) and c[2] == 2:   # 2-D: one angle (3-D triplets are not canonical)
+        r = k3[0]; npar = int(undy(r[2])); ids = [list(parid_dec(int(undy(x)))) for x in r[3:3 + npar]]
+        for icov, st in enumerate(structs):
+            if st[5] == 0 or any(x == [] for x in ii[3]): continue
+            mcases.append([8, icov, c[10], ids, ii[3][:c[2]]]); mmeta.append(('ang', icov, ids, st[3][:c[2]], c))
     # user constraints in the bound vectors handed to foxleg_f
     for r in k3:
         npar = int(undy(r[2])); ids = [int(undy(x)) for x in r[3:3 + npar]]
@@ -918,6 +929,14 @@ def compare_trace_models(ctx, mcases, mmeta, runner):
         if mi and mi[0] == -999:
             print('ERROR: model rejected a trace case: %s' % sx_str(mc)[:300]); sys.exit(3)
         ctx.count('trace:' + sx_str(mc))
+        if meta[0] == 'ang':
+            _, icov, ids, got, c = meta
+            bad = [k for k in range(1) if not any(p[1] == icov and p[2] == E_ANGLE and p[3] == k for p in ids) and not ang_eq(undy(got[k]), unq(mi[k]))]
+            if bad:
+                ctx.ndis += 1; ctx.found_input = True
+                ctx.violation('Model::fit:angle-not-inferred:neither-reference-nor-user-equality', 'structure %d: angles %s, expected %s for the ranks %s that are not parameters' % (
+                              icov, [fl(undy(x)) for x in got], [fl(unq(x)) for x in mi], bad), {'fit_case': sx_str(c), 'model_case': sx_str(mc), 'model': sx_str(mi)})
+            continue
         if meta[0] == 'k1':
             _, site, flag, sout, c = meta
             Sout = unmat(sout); mflag = mi[0]; mS = unmat(mi[1], unq)
@@ -1012,6 +1031,14 @@ def directed_fit_cases():
     add(0, 2, p2, dirs2(2), [0, 2], O(), cons=D(2), maxiter=0)
     add(2, 2, p2, dirs2(2), [0, 2], O(), cons=D(2), maxiter=50)
     add(3, 2, p2, dirs2(2), [0, 2], O(), cons=D(2), maxiter=50)
+    # degenerate but not constant data (known findings: the fitted model is PSD, yet kriging with it is singular)
+    #  - second variable equal to 0 everywhere except at one far sample: its variogram is 0 at every valid lag -> zero sills
+    pz = [[xy, [z[0], D(0)]] for xy, z in p2[:40]] + [[[D(100), D(100)], [D(1), D(5)]]]
+    #  - second variable = 2 x first variable: every sill matrix has rank one -> singular total sill
+    ps = [[xy, [z[0], dy(2 * undy(z[0]))]] for xy, z in p2[:40]]
+    for path_, types_ in ((0, [0, 2]), (2, [0, 2]), (3, [2])):
+        add(path_, 2, pz, dirs2(2, npas=4), types_, O(), maxiter=100)
+        add(path_, 2, ps, dirs2(2, npas=4), types_, O(), maxiter=100)
     # variogram map on a 10 x 10 grid
     vals = [[D(Fraction(round((math.sin(i / 3.) + math.cos(j / 2.) + 0.3 * rng.gauss(0, 1)) * 64), 64))] for j in range(10) for i in range(10)]
     out.append([10, 1, 2, 1, [10, 10, vals, 4], [], [], [0, 2], O(), [50, 2], [], [], 1, 0])
